@@ -127,6 +127,7 @@ fn handle_put<R: Read, W: Write>(
     let tmp = tmp_of(&dst);
     // Stream exactly `len` bytes to the temp file + hash them (never buffer whole).
     let mut hasher = blake3::Hasher::new();
+    let mut received: u64 = 0;
     {
         let mut tf = std::fs::File::create(&tmp)?;
         let mut limited = r.take(len);
@@ -138,11 +139,13 @@ fn handle_put<R: Read, W: Write>(
             }
             hasher.update(&buf[..n]);
             tf.write_all(&buf[..n])?;
+            received += n as u64;
         }
         tf.sync_all()?;
     }
-    // Integrity: the streamed content must match the hash the client claimed.
-    if *hasher.finalize().as_bytes() != hash {
+    // Integrity: the streamed content must match the length AND the hash the
+    // client claimed (a stream that ends early is never committed).
+    if received != len || *hasher.finalize().as_bytes() != hash {
         let _ = std::fs::remove_file(&tmp);
         return write_frame(w, &Response::Error("content hash mismatch".into()));
     }
